@@ -99,7 +99,8 @@ def run(ck, ix, tier):
                      f"the with-block can be left ({nm} exit) without disabling the contexts it enabled", witness(cfg, p))
     for d in live(cfg, dis):
         c = [c for c in ast.walk(cfg.nodes[d].ast) if isinstance(c, ast.Call) and call_name(c) == "disable_contexts"][0]
-        arg = norm(c.args[0]) if c.args else "None"
+        from .. import shape as _sh12
+        arg = norm(_sh12.unalias(c.args[0], fi.node)) if c.args else "None"     # `n = len(names)` may be taken before the with-block is entered
         ck.check(len(star) == 1 and arg == f"len({star[0]})", "G-PAIR", "context|disables-as-many-as-enabled", fi.loc(c),
                  f"disables len({star[0] if star else '?'})", f"`disable_contexts({arg})` does not match `enable_contexts(*{star[0] if star else '?'})`")
     # a failing enable must not run the disable (it already rolled back)
